@@ -248,14 +248,19 @@ def model_history_task(c):
     how: "replace-entry"   model.distributions[k] = another distribution object (same or other family;
                            k = 0: a plain distribution, k > 0: a ConditionalDistribution)
          "set-parameters"  attribute assignment on the first distribution + new parameters dict of every
-                           dependence function (models.change_parameters)"""
+                           dependence function (models.change_parameters)
+         "set-fixed"       new values in the fixed_parameters dict of the conditional distributions
+    style "scalar"/"fixed": the parameters that do not vary with the given are scalar-returning dependence
+    functions / fixed parameters (models.constant_style); both draws use the same n"""
     import copy
     vc = import_virocon()
     out = []
     np.random.seed((c["seed"] + 29) % (2**32 - 1))
     desc_a = M.describe(np.random.default_rng(c["seed"]), c["n_dim"], c["cond"], c["families"], c["sh"])
+    if c.get("style"):           # constants as scalar-returning dependence functions / fixed parameters
+        M.constant_style(desc_a, c["style"])
     model = M.from_description(vc, desc_a)
-    n = c["n"]
+    n = c["n"]                   # the SAME sample size before and after the change
 
     def judge_sample(mdl, desc, x):
         rec = dict(kind="ks", exc="", n=n, overall=[], given=[], indep=[], extreme=[], dups=[], finite=True, fresh=True)
@@ -284,6 +289,14 @@ def model_history_task(c):
                 desc_now["dims"][k] = copy.deepcopy(desc_b["dims"][k])
                 desc_now["families"][k] = desc_b["families"][k]
                 desc_now["shapes"][k] = desc_b["shapes"][k]
+            elif c["how"] == "set-fixed":      # the documented fixed_parameters dict of a conditional distribution
+                desc_now = copy.deepcopy(desc_a)
+                for i in range(1, c["n_dim"]):
+                    if desc_a["cond"][i] is None:
+                        continue
+                    for pname in list(model.distributions[i].fixed_parameters):
+                        model.distributions[i].fixed_parameters[pname] = model.distributions[i].fixed_parameters[pname] * 1.2
+                        desc_now["dims"][i]["fixed"][pname] = desc_now["dims"][i]["fixed"][pname] * 1.2
             else:
                 M.change_parameters(model)
                 desc_now = M.change_description(desc_a)
@@ -542,6 +555,17 @@ def make_tasks(ctx, cfgs, hists):
                 fb[t["entry"]] = M.FAMILIES[(M.FAMILIES.index(fb[t["entry"]]) + 1 + j % 5) % len(M.FAMILIES)]
             t["families_b"] = fb
         tasks.append(t)
+    # ... the same with parameters that are constant in the given: scalar-returning dependence functions
+    # whose coefficient is changed, and fixed parameters changed through fixed_parameters (same n twice)
+    ccfg = [c_ for c_ in by_n[2] if c_["cond"][1] == 0 and c_["sh"][1] in (1, 2, 3)] + \
+           [c_ for c_ in by_n[3] if c_["cond"][1] == 0 and c_["cond"][2] in (0, 1) and c_["sh"][1] in (1, 2, 3)
+            and c_["sh"][2] in (1, 2, 3)]
+    for j in range(ctx.pick(10, 40)):
+        cfg = ccfg[(j * 5 + ctx.seed) % len(ccfg)]
+        k += 1
+        style, how = [("scalar", "set-parameters"), ("fixed", "set-fixed")][j % 2]
+        tasks.append(dict(base(cfg), task="model_history", how=how, style=style,
+                          rs=["int", "generator", "int0", "none"][k % 4], n=100_000))
     # histories on one distribution object: sample -> fit (every method the family supports) / assign -> sample
     hows = {fam: ["mle", "assign"] for fam in M.FAMILIES}
     hows["expweibull"] = ["mle", "lsq", "wlsq:linear", "wlsq:quadratic", "wlsq:cubic", "assign"]
